@@ -4,16 +4,19 @@ import (
 	"bytes"
 	"encoding/json"
 	"fmt"
+	"go/parser"
 	"go/token"
 	"math/rand"
+	"os"
+	"path/filepath"
 	"reflect"
 	"strings"
 	"time"
 
 	"github.com/dave/dst"
 	"github.com/dave/dst/decorator"
-	"github.com/dave/dst/decorator/resolver/simple"
 	"github.com/dave/dst/decorator/resolver/goast"
+	"github.com/dave/dst/decorator/resolver/simple"
 )
 
 func init() { register("C02", "model_checking", checkC02) }
@@ -74,6 +77,10 @@ func c02Case(t listTemplate, decs []chunk, blank bool, hist []editOp) (sig, what
 	libNames := simple.New(map[string]string{"example.com/lib": "lib"})
 	if t.Qualified {
 		f, err = decorator.NewDecoratorWithImports(token.NewFileSet(), "example.com/p", goast.WithResolver(libNames)).Parse(src)
+	} else if len(src)%5 == 0 {
+		// every fifth source is decorated as one file of a directory (ParseDir): the other files hold
+		// raw strings and block comments that span the line numbers of the lists
+		f, err = c02ParseInDir(src)
 	} else {
 		f, err = decorator.Parse(src)
 	}
@@ -300,4 +307,39 @@ func init() {
 		}
 		return "harness: unknown template"
 	}
+}
+
+// c02ParseInDir decorates src as m.go of a directory whose other files (before and behind it in name
+// order) hold a raw string and a block comment of sixty lines each.
+func c02ParseInDir(src string) (*dst.File, error) {
+	dir, err := os.MkdirTemp("", "dstv-c02-")
+	if err != nil {
+		return nil, err
+	}
+	defer os.RemoveAll(dir)
+	pkg := "p"
+	if af, err := parser.ParseFile(token.NewFileSet(), "", src, parser.PackageClauseOnly); err == nil {
+		pkg = af.Name.Name
+	}
+	long := strings.Repeat("line\n", 60)
+	filler := func(name string) string {
+		return "package " + pkg + "\n\nvar " + name + "Raw = `" + long + "`\n\n/*\n" + long + "*/\nvar " + name + "After = 1\n"
+	}
+	for name, text := range map[string]string{"a.go": filler("a"), "m.go": src, "z.go": filler("z")} {
+		if err := os.WriteFile(filepath.Join(dir, name), []byte(text), 0644); err != nil {
+			return nil, err
+		}
+	}
+	pkgs, err := decorator.ParseDir(token.NewFileSet(), dir, nil, parser.ParseComments)
+	if err != nil {
+		return nil, err
+	}
+	for _, p := range pkgs {
+		for name, f := range p.Files {
+			if filepath.Base(name) == "m.go" {
+				return f, nil
+			}
+		}
+	}
+	return nil, fmt.Errorf("m.go not found")
 }
